@@ -60,7 +60,7 @@ def shared_zs():
 
 
 def is_sym(v):
-    return z3.is_expr(v) or isinstance(v, (VStruct, VOpt, VBox, VObj, VAbs, VMatch))
+    return z3.is_expr(v) or isinstance(v, (VStruct, VOpt, VBox, VObj, VAbs, VMatch)) or type(v).__name__ == 'VFn'
 
 
 def contains_sym(v):
@@ -271,6 +271,9 @@ class Interp:
 
     def eq(self, a, b):
         """python == -> bool or z3 Bool"""
+        if type(a).__name__ == 'Bottom' or type(b).__name__ == 'Bottom':
+            self.qcount += 1
+            return z3.Bool(f'bottom!{self.qcount}')
         if isinstance(a, VOpt) or isinstance(b, VOpt):
             if a is None:
                 return b.none
